@@ -48,6 +48,9 @@ class Query:
             s.add(a)
         body = s.to_smt2()
         body = body.replace("(check-sat)\n", "")
+        # z3 prints its internal "divisor known to be non-zero" operators; they coincide with the standard ones there
+        for op in ("bvsdiv", "bvudiv", "bvsrem", "bvurem", "bvsmod"):
+            body = body.replace("(%s_i " % op, "(%s " % op)
         tail = "(check-sat)\n"
         if self.inputs:
             tail += "(get-value (%s))\n" % " ".join(sym(c) for c in self.inputs)
@@ -85,7 +88,14 @@ def parse_model(txt):
             m[name] = int(v[2:], 2)
         else:
             m[name] = int(g.group(3))
+    for g in IVAL.finditer(txt):
+        name = g.group(1).strip("|")
+        if name not in m:
+            m[name] = -int(g.group(3)) if g.group(3) else int(g.group(2))
     return m
+
+
+IVAL = re.compile(r"\(\s*(\|[^|]*\||[^\s()]+)\s+(?:(\d+)|\(-\s+(\d+)\))\s*\)")
 
 
 def run_one(q, workdir, race=True):
